@@ -259,6 +259,14 @@ pub struct World {
 	pub peak_height: u32,
 	/// a share of the on-chain scenarios is shaped for the punishment of revoked states (C06)
 	pub justice_focus: bool,
+	/// on-chain scenario option: the non-closing party's manager hears of blocks late and sends one more
+	/// HTLC after its monitor has seen the channel closed
+	pub late_update: bool,
+	/// blocks are given to this node's ChainMonitor only; its ChannelManager gets them at `release_held_blocks`
+	pub hold_mgr_blocks: Option<usize>,
+	pub held_blocks: Vec<Block>,
+	/// payment hashes for which a node handled PaymentSent / PaymentFailed
+	pub terminal_seen: std::collections::HashSet<(usize, [u8; 32])>,
 }
 
 fn lk(a: usize, b: usize) -> ((usize, usize), usize) {
@@ -275,7 +283,7 @@ impl World {
 		log.trace.store(trace && std::env::var("VERIF_TAP_TRACE").is_ok(), Ordering::Relaxed);
 		let best = BlockLocator::new(bitcoin::constants::genesis_block(bitcoin::Network::Regtest).header.block_hash(), crate::chain::BASE_HEIGHT);
 		let nodes: Vec<Node> = node_cfgs.into_iter().enumerate().map(|(i, c)| Node::new(i, c, &log, fee_now, best.clone())).collect();
-		World { rng: seed_rng, log, log_cursor: 0, nodes, chans: vec![], links: HashMap::new(), chain: Chain::new(), obs: VecDeque::new(), step: 0, claimable: vec![], payments: vec![], regs: vec![], script: vec![], trace, fee_now, next_user_id: 1, funding_txs: HashMap::new(), spendable: vec![], watch_counts: HashMap::new(), snapshot_counts: vec![], total_writes: vec![], crashes_handled: 0, writes_at_open: vec![], captured: vec![], revocations_seen: Default::default(), cp_commit_numbers: HashMap::new(), close: None, attacker_htlc_txs: vec![], onchain_done: false, miner_delay_max: 0, miner_release: HashMap::new(), miner_min_feerate: 0, fee_market_used: false, miner_exempt: Default::default(), event_log: vec![], chain_equiv: false, reorgs: false, peak_height: crate::chain::BASE_HEIGHT, justice_focus: false }
+		World { rng: seed_rng, log, log_cursor: 0, nodes, chans: vec![], links: HashMap::new(), chain: Chain::new(), obs: VecDeque::new(), step: 0, claimable: vec![], payments: vec![], regs: vec![], script: vec![], trace, fee_now, next_user_id: 1, funding_txs: HashMap::new(), spendable: vec![], watch_counts: HashMap::new(), snapshot_counts: vec![], total_writes: vec![], crashes_handled: 0, writes_at_open: vec![], captured: vec![], revocations_seen: Default::default(), cp_commit_numbers: HashMap::new(), close: None, attacker_htlc_txs: vec![], onchain_done: false, miner_delay_max: 0, miner_release: HashMap::new(), miner_min_feerate: 0, fee_market_used: false, miner_exempt: Default::default(), event_log: vec![], chain_equiv: false, reorgs: false, peak_height: crate::chain::BASE_HEIGHT, justice_focus: false, late_update: false, hold_mgr_blocks: None, held_blocks: vec![], terminal_seen: Default::default() }
 	}
 	/// Whether the victim (the other party) has processed the revocation of this captured commitment.
 	pub fn is_revoked(&self, c: &crate::onchain::Captured) -> bool {
@@ -581,6 +589,15 @@ impl World {
 			eprintln!("  step {} EVENT node{} {}", self.step, n, ev_name(&e));
 		}
 		match &e {
+			Event::PaymentSent { payment_hash, .. } => {
+				self.terminal_seen.insert((n, payment_hash.0));
+			},
+			Event::PaymentFailed { payment_hash: Some(ph), .. } => {
+				self.terminal_seen.insert((n, ph.0));
+			},
+			_ => {},
+		}
+		match &e {
 			Event::OpenChannelRequest { temporary_channel_id, counterparty_node_id, .. } => {
 				let uid = self.next_user_id;
 				self.next_user_id += 1;
@@ -734,15 +751,35 @@ impl World {
 		let txdata: Vec<(usize, &Transaction)> = b.txs.iter().enumerate().map(|(i, t)| (i + 1, t)).collect();
 		self.drain_taps();
 		self.obs.push_back(Obs::MonitorChainCall { step: self.step, node: n, height: b.height, best_block: false });
+		let held = self.hold_mgr_blocks == Some(n);
 		self.nodes[n].mon.transactions_confirmed(&b.header, &txdata, b.height);
 		self.drain_taps();
-		self.nodes[n].mgr.transactions_confirmed(&b.header, &txdata, b.height);
-		self.drain_taps();
+		if !held {
+			self.nodes[n].mgr.transactions_confirmed(&b.header, &txdata, b.height);
+			self.drain_taps();
+		}
 		self.obs.push_back(Obs::MonitorChainCall { step: self.step, node: n, height: b.height, best_block: true });
 		self.nodes[n].mon.best_block_updated(&b.header, b.height);
 		self.drain_taps();
-		self.nodes[n].mgr.best_block_updated(&b.header, b.height);
-		self.drain_taps();
+		if held {
+			self.held_blocks.push(b.clone());
+		} else {
+			self.nodes[n].mgr.best_block_updated(&b.header, b.height);
+			self.drain_taps();
+		}
+	}
+	/// Give the blocks held back from a node's ChannelManager to it, in order.
+	pub fn release_held_blocks(&mut self) {
+		if let Some(n) = self.hold_mgr_blocks.take() {
+			for b in std::mem::take(&mut self.held_blocks) {
+				let txdata: Vec<(usize, &Transaction)> = b.txs.iter().enumerate().map(|(i, t)| (i + 1, t)).collect();
+				self.nodes[n].mgr.transactions_confirmed(&b.header, &txdata, b.height);
+				self.drain_taps();
+				self.nodes[n].mgr.best_block_updated(&b.header, b.height);
+				self.drain_taps();
+			}
+			self.pump(n);
+		}
 	}
 	/// Reorganise: the last `depth` blocks leave the active chain. Their transactions return to the mempool
 	/// except those in `drop` (and whatever is not valid for the next block any more); every node is told in
@@ -853,7 +890,11 @@ impl World {
 			self.obs.push_back(Obs::BlockConnected { step: self.step, height: b.height, txids: b.txs.iter().map(|t| t.compute_txid()).collect() });
 			for n in 0..self.nodes.len() {
 				self.connect_block_to_node(n, &b);
-				self.pump(n);
+				// (a manager that is being kept behind its monitor is not polled either: polling hands it the
+				// monitor's events)
+				if self.hold_mgr_blocks != Some(n) {
+					self.pump(n);
+				}
 			}
 		}
 		self.relay_broadcasts();
